@@ -1223,6 +1223,13 @@ pub fn tiny_program(p: &mut Prng) -> String {
 /// Large circuits (10^5 .. 10^6 gates): several 64-bit multiplications / divisions. Exercises
 /// behaviour that depends on table sizes, capacities and thresholds inside the circuit builder.
 pub fn big_program(p: &mut Prng) -> String {
+    big_program_with(p, false)
+}
+
+/// `ordered`: every binary operation takes its operands in parameter order (p0 op p1, never
+/// p1 op p0), so the program contains (almost) no commuted duplicates — a homogeneous workload for
+/// adaptive, statistics-driven heuristics.
+pub fn big_program_with(p: &mut Prng, ordered: bool) -> String {
     let ty = *p.pick(&["u64", "u64", "i64", "u32"]);
     let n = p.range(2, 4) as usize;
     let params: Vec<String> = (0..n).map(|i| format!("p{i}")).collect();
@@ -1237,8 +1244,11 @@ pub fn big_program(p: &mut Prng) -> String {
     let mut terms = vec![];
     for _ in 0..heavy {
         let op = *p.pick(&["*", "/", "%", "/"]);
-        let a = pick(p);
-        let b = pick(p);
+        let mut a = pick(p);
+        let mut b = pick(p);
+        if ordered && a > b {
+            std::mem::swap(&mut a, &mut b);
+        }
         terms.push(if p.chance(1, 3) { format!("(({a} {op} {b}) {} {})", p.pick(&["/", "*", "%"]), pick(p)) } else { format!("({a} {op} {b})") });
     }
     let fold = *p.pick(&["^", "+", "&", "|"]);
